@@ -69,3 +69,12 @@ PROPS['C07'] = dict(
     assumptions=[],
     domain=[],
 )
+
+PROPS['C06'] = dict(
+    title='Batching partitions the item stream and respects the batch limit',
+    groups=[dict(template='c06_batch.rs'), dict(template='c06_subseq.rs')],
+    claim='',
+    not_covered=[],
+    assumptions=[],
+    domain=[],
+)
